@@ -53,15 +53,20 @@ def rule_s1_s2(prog, rep):
     fs = {n: prog.need_func(n) for n in ('qhashtbl_put', 'qhashtbl_get', 'qhashtbl_remove', 'qhashtbl_getnext')}
     idx_exprs = {}
     preds = {}
-    for name in ('qhashtbl_put', 'qhashtbl_get', 'qhashtbl_remove'):
-        f = fs[name]
+    import re as _re
+
+    def collect(f, subst, depth=0):
+        """(slot index expressions, chain-match predicates) of f and of the static helpers it calls, with the helpers'
+        parameters replaced by the caller's (expanded) argument expressions"""
         rd = ReachingDefs(f)
-        exprs = set()
+
+        def sub(text):
+            if not subst:
+                return text
+            return _re.sub(r'[A-Za-z_]\w*', lambda m: subst.get(m.group(0), m.group(0)), text)
+        exprs, ps = set(), set()
         for (n, x) in slot_subscripts(f):
-            exprs.add(expand(rd, n.id, children(x)[1]))
-        idx_exprs[name] = exprs
-        # chain-match predicate: conditions inside the loop that walks obj = obj->next
-        ps = set()
+            exprs.add(sub(expand(rd, n.id, children(x)[1])))
         for (head, loop) in f.cfg.loops:
             body = _loop_nodes(f.cfg, head)
             steps = any(isinstance(f.cfg.nodes[i].ast, dict) and '->next' in canon(f.cfg.nodes[i].ast)
@@ -71,10 +76,29 @@ def rule_s1_s2(prog, rep):
             for i in sorted(body):
                 m = f.cfg.nodes[i]
                 if m.kind == 'cond' and isinstance(m.ast, dict):
-                    c = expand(rd, m.id, m.ast)
+                    c = sub(expand(rd, m.id, m.ast))
                     if '->hash' in c or 'strcmp' in c or 'memcmp' in c:
                         ps.add(c.replace(' != ', ' == '))      # polarity-insensitive: how the test is branched on is free
-        preds[name] = ps
+        if depth < 2:
+            for n in f.cfg.nodes:
+                if n.id not in f.cfg.reachable or not isinstance(n.ast, dict) or n.kind == 'macro':
+                    continue
+                for call in walk(n.ast):
+                    if call.get('kind') != 'CallExpr':
+                        continue
+                    for g in prog.callees(f.unit, call):
+                        if getattr(g, 'body', None) is None or not g.static or g.unit.rel != UNIT:
+                            continue
+                        args = children(call)[1:]
+                        s2 = {}
+                        for p_, a in zip(g.params, args):
+                            s2[p_.get('name')] = sub(expand(rd, n.id, a))
+                        e2, p2 = collect(g, s2, depth + 1)
+                        exprs |= e2
+                        ps |= p2
+        return exprs, ps
+    for name in ('qhashtbl_put', 'qhashtbl_get', 'qhashtbl_remove'):
+        idx_exprs[name], preds[name] = collect(fs[name], {})
     ref = idx_exprs['qhashtbl_put']
     for name, ex in idx_exprs.items():
         rep.instance('S1')
@@ -92,8 +116,18 @@ def rule_s1_s2(prog, rep):
     for n in f.cfg.nodes:
         if isinstance(n.ast, dict) and n.kind != 'macro':
             for x in walk(n.ast):
-                if x.get('kind') == 'BinaryOperator' and x.get('opcode') == '=' and access_path(children(x)[0]) == 'idx':
+                # the resume position: assigned to a local or handed to a slot-scanning helper
+                if x.get('kind') == 'BinaryOperator' and x.get('opcode') == '=' and strip(children(x)[0]).get('kind') == 'DeclRefExpr' \
+                        and '->hash' in canon(children(x)[1]):
                     resume.add(canon(children(x)[1]))
+                elif x.get('kind') == 'VarDecl':
+                    from .expr import var_init
+                    if var_init(x) is not None and '->hash' in canon(var_init(x)):
+                        resume.add(canon(var_init(x)))
+                elif x.get('kind') == 'CallExpr':
+                    for a in children(x)[1:]:
+                        if '->hash' in canon(a) and '%' in canon(a):
+                            resume.add(canon(a))
     want = None
     if len(ref) == 1:
         r = list(ref)[0]
@@ -253,11 +287,15 @@ def rule_s2_strcmp(prog, rep, rid='S2'):
     for name in ('qhashtbl_put', 'qhashtbl_get', 'qhashtbl_remove'):
         f = prog.need_func(name)
         found = False
-        for x in walk(f.body):
-            if x.get('kind') == 'CallExpr' and prog.callee_name(x) in ('strcmp', 'strncmp', 'memcmp'):
-                args = [canon(a) for a in children(x)[1:3]]
-                if any(a.endswith('->name') for a in args) and any(a == 'name' for a in args):
-                    found = True
+        scope = [f] + [g for x in walk(f.body) if x.get('kind') == 'CallExpr' for g in prog.callees(f.unit, x)
+                       if getattr(g, 'body', None) is not None and g.static and g.unit.rel == UNIT]
+        for g in scope:
+            pnames = {p_.get('name') for p_ in g.params if 'char' in (qtype(p_) or '')}
+            for x in walk(g.body):
+                if x.get('kind') == 'CallExpr' and prog.callee_name(x) in ('strcmp', 'strncmp', 'memcmp'):
+                    args = [canon(a) for a in children(x)[1:3]]
+                    if prog.callee_name(x) == 'strcmp' and any(a.endswith('->name') for a in args) and any(a in pnames for a in args):
+                        found = True
         rep.instance(rid)
         rep.oblige(rid, found, {'function': name, 'string_equality_on_key': found})
         if not found:
